@@ -1,0 +1,39 @@
+//go:build verif
+
+/*
+Copyright 2021 The Kubernetes Authors.
+
+Licensed under the Apache License, Version 2.0 (the "License");
+you may not use this file except in compliance with the License.
+You may obtain a copy of the License at
+
+    http://www.apache.org/licenses/LICENSE-2.0
+
+Unless required by applicable law or agreed to in writing, software
+distributed under the License is distributed on an "AS IS" BASIS,
+WITHOUT WARRANTIES OR CONDITIONS OF ANY KIND, either express or implied.
+See the License for the specific language governing permissions and
+limitations under the License.
+*/
+
+package policy
+
+import "k8s.io/apimachinery/pkg/util/sets"
+
+// VerifTables exposes the allow-lists of this package as they are at run time (after package
+// initialisation), for the external verification harness. Built only with -tags verif.
+func VerifTables() map[string][]string {
+	return map[string][]string{
+		"capsBaseline":             capabilities_allowed_1_0.List(),
+		"capAll":                   {capabilityAll},
+		"capsRestrictedAdd":        {capabilityNetBindService},
+		"sysctls0":                 sysctlsAllowedV1Dot0.List(),
+		"sysctls27":                sysctlsAllowedV1Dot27.List(),
+		"sysctls29":                sysctlsAllowedV1Dot29.List(),
+		"sysctls32":                sysctlsAllowedV1Dot32.List(),
+		"selinux0":                 sets.List(selinuxAllowedTypes1_0),
+		"selinux31":                sets.List(selinuxAllowedTypes1_31),
+		"seccompPodAnnKey":         {annotationKeyPod},
+		"seccompContainerAnnPrefix": {annotationKeyContainerPrefix},
+	}
+}
